@@ -385,3 +385,29 @@ func Unwrap(v ssa.Value) ssa.Value {
 func IsErrorType(t types.Type) bool {
 	return types.Identical(t, types.Universe.Lookup("error").Type())
 }
+
+// RetVals returns the values a Return yields, looking through go/ssa's spilling of results into locals
+// in functions that contain a defer (`*t0 = v; rundefers; t9 = *t0; return t9`): for a result loaded
+// from a local cell, the last store to that cell earlier in the same block is used.
+func RetVals(r *ssa.Return) []ssa.Value {
+	out := make([]ssa.Value, len(r.Results))
+	b := r.Block()
+	for i, v := range r.Results {
+		out[i] = v
+		ld, ok := v.(*ssa.UnOp)
+		if !ok || ld.Op != token.MUL || ld.Block() != b {
+			continue
+		}
+		a, ok := ld.X.(*ssa.Alloc)
+		if !ok {
+			continue
+		}
+		for j := len(b.Instrs) - 1; j >= 0; j-- {
+			if st, ok := b.Instrs[j].(*ssa.Store); ok && st.Addr == ssa.Value(a) {
+				out[i] = st.Val
+				break
+			}
+		}
+	}
+	return out
+}
